@@ -13,6 +13,7 @@ import (
 	"encoding/json"
 	"flag"
 	"fmt"
+	"io"
 	goast "go/ast"
 	goparser "go/parser"
 	gotoken "go/token"
@@ -24,6 +25,7 @@ import (
 	"strconv"
 	"strings"
 	"sync"
+	"time"
 
 	"github.com/goplus/gogen/packages"
 	"github.com/goplus/xgo/cl"
@@ -69,10 +71,76 @@ func init() {
 		"github.com/goplus/xgo/cl/internal/spx3", "math")
 }
 
+// expCache resolves export data files for the importer.  The parent asks `go list -export -deps`
+// once for the packages generated code can import and hands the table to its children (file
+// C08_EXPORTS), so that a fresh process does not spend its time in `go list` (3–4 s per call here).
+type expCache struct {
+	mu sync.Mutex
+	m  map[string]string
+}
+
+var preloadPkgs = []string{"fmt", "math", "strings", "testing", "strconv", "errors", "os", "reflect",
+	"github.com/goplus/xgo/cl/internal/spx", "github.com/goplus/xgo/cl/internal/spx2",
+	"github.com/goplus/xgo/cl/internal/spx3", "github.com/goplus/xgo/cl/internal/spx3/jwt",
+	"github.com/goplus/xgo/cl/internal/spx4", "github.com/goplus/xgo/cl/internal/mcp",
+	"github.com/qiniu/x/stringutil", "github.com/qiniu/x/stringslice", "github.com/qiniu/x/osx",
+	"github.com/qiniu/x/errors", "github.com/qiniu/x/xgo/ng", "github.com/qiniu/x/xgo", "github.com/qiniu/x/stringutil"}
+
+func goList(args ...string) ([]byte, error) {
+	cmd := exec.Command("go", append([]string{"list", "-export", "-e"}, args...)...)
+	cmd.Dir = repo()
+	cmd.Env = append(os.Environ(), "GOFLAGS=-mod=mod", "GOPROXY=off", "GOSUMDB=off", "GOTOOLCHAIN=local", "CGO_ENABLED=0")
+	return cmd.Output()
+}
+
+func (c *expCache) load() {
+	c.m = map[string]string{}
+	if f := os.Getenv("C08_EXPORTS"); f != "" {
+		if b, err := os.ReadFile(f); err == nil {
+			json.Unmarshal(b, &c.m)
+			return
+		}
+	}
+	out, _ := goList(append([]string{"-deps", "-f", "{{.ImportPath}}\t{{.Export}}"}, preloadPkgs...)...)
+	for _, l := range strings.Split(string(out), "\n") {
+		if f := strings.SplitN(l, "\t", 2); len(f) == 2 && f[1] != "" {
+			c.m[f[0]] = f[1]
+		}
+	}
+}
+
+func (c *expCache) Find(dir, pkgPath string) (io.ReadCloser, error) {
+	c.mu.Lock()
+	f, ok := c.m[pkgPath]
+	c.mu.Unlock()
+	if !ok {
+		nFallback++
+		out, err := goList("-f", "{{.Export}}", pkgPath)
+		if err != nil {
+			return nil, fmt.Errorf("go list -export %s: %v", pkgPath, err)
+		}
+		f = strings.TrimSpace(string(out))
+		c.mu.Lock()
+		c.m[pkgPath] = f
+		c.mu.Unlock()
+	}
+	if f == "" {
+		return nil, fmt.Errorf("no export data for %s", pkgPath)
+	}
+	return os.Open(f)
+}
+
+var (
+	cache     = &expCache{}
+	nFallback int
+)
+
 func newCtx() *build.Context {
 	impOnce.Do(func() {
 		impFset = token.NewFileSet()
 		imp = packages.NewImporter(impFset)
+		cache.load()
+		imp.SetCache(cache)
 	})
 	ctx := build.NewContext(imp, impFset)
 	ctx.LoadConfig = func(c *cl.Config) { c.NoFileLine = false; c.RelativeBase = "/" }
@@ -362,11 +430,13 @@ func main() {
 	}
 	r := vh.NewRand(f.Seed ^ 0xc08)
 	base := map[string]string{} // "<id>/<route>" → first result
+	reported := map[string]bool{}
 	check := func(c *pkgCase, route, res, how string) {
 		k := fmt.Sprintf("%d/%s", c.ID, route)
 		if b, ok := base[k]; !ok {
 			base[k] = res
-		} else if b != res {
+		} else if b != res && !reported[k] {
+			reported[k] = true
 			key := "output-differs"
 			switch {
 			case strings.HasPrefix(b, "ERR") && strings.HasPrefix(res, "ERR"):
@@ -380,9 +450,13 @@ func main() {
 			o.Oracle(key, caseLine(c), fmt.Sprintf("route=%s how=%s\n--- first:\n%s\n--- other:\n%s", route, how, b, res))
 		}
 	}
+	tStart := time.Now()
 	for _, c := range cases {
 		names := c.fileNames()
 		rr := r.Fork(c.ID)
+		if os.Getenv("C08_TIMING") != "" {
+			fmt.Fprintf(os.Stderr, "case %d %s t=%v fallbacks=%d\n", c.ID, c.Kind, time.Since(tStart), nFallback)
+		}
 		for i := 0; i < nIn; i++ {
 			order := names
 			if i > 0 {
@@ -406,6 +480,15 @@ func main() {
 		default:
 			o.Count("result_other")
 		}
+		if d := os.Getenv("C08_DUMP"); d != "" && (d == "all" || d == c.Kind) {
+			fmt.Fprintf(os.Stderr, "=== case %d %s nerr=%d\n", c.ID, c.Kind, c.NErr)
+			if os.Getenv("C08_DUMPSRC") != "" {
+				for _, n := range names {
+					fmt.Fprintf(os.Stderr, "--- %s\n%s", n, c.Files[n])
+				}
+			}
+			fmt.Fprintf(os.Stderr, ">>> %s\n", first)
+		}
 		if strings.HasPrefix(first, "PANIC") || strings.Contains(first, "compile /pkg failed") {
 			o.Count("result_panic")
 		}
@@ -423,6 +506,13 @@ func main() {
 	}
 	// fresh processes
 	casesFile := filepath.Join(abs, "cases.json")
+	expFile := filepath.Join(abs, "exports.json")
+	cache.mu.Lock()
+	eb, _ := json.Marshal(cache.m)
+	cache.mu.Unlock()
+	os.WriteFile(expFile, eb, 0o644)
+	defer os.Remove(expFile)
+	o.Stats["go_list_fallbacks"] = nFallback
 	data, _ := json.Marshal(cases)
 	os.WriteFile(casesFile, data, 0o644)
 	byID := map[int]*pkgCase{}
@@ -438,6 +528,7 @@ func main() {
 			defer wg.Done()
 			cmd := exec.Command(exe, "-child", casesFile, "-k", strconv.Itoa(k), "-seed", strconv.FormatUint(f.Seed, 10))
 			cmd.Stderr = os.Stderr
+			cmd.Env = append(os.Environ(), "C08_EXPORTS="+expFile)
 			outs[k], errs[k] = cmd.Output()
 		}(k)
 	}
